@@ -269,7 +269,13 @@ pub fn run_c16(run: &mut Run, replay: Option<&std::path::Path>) -> anyhow::Resul
                     let top = stack.pop().unwrap();
                     let keep = top.clone();
                     let p2 = path.clone();
-                    match quiet(move || top.route(&p2, TagSvc(svc))) {
+                    // a Router is Send: applications assemble route tables across threads
+                    let res = if rng.chance(1, 4) {
+                        std::thread::spawn(move || quiet(move || top.route(&p2, TagSvc(svc)))).join().unwrap_or_else(|_| Err("thread".into()))
+                    } else {
+                        quiet(move || top.route(&p2, TagSvc(svc)))
+                    };
+                    match res {
                         Ok(r) => {
                             stack.push(r);
                             if path.starts_with('/') && !path.contains('*') && !path.contains(':') {
